@@ -6,6 +6,9 @@ OUT=seeded/results.tsv
 : > "$OUT.tmp"
 for d in seeded/C*/; do
   dir=$(basename "$d"); id=${dir%%-*}
+  # a change seeded for one property may be a defect of the kind another property's check owns
+  # (a concurrency defect in a hash command is C05's, a cluster-mode reply mix-up is C07's)
+  [ -f "$d/check_with" ] && id=$(cat "$d/check_with")
   res=$(tools/seedcheck.sh "$id" "$d/patch.diff" "${1:-quick}" 2>&1 | grep '^SEED:' | tail -1)
   echo -e "$dir\t${1:-quick}\t$res" >> "$OUT.tmp"
 done
